@@ -37,14 +37,20 @@ def state1(rng, **kw):
     return d
 
 
-REMOTE_IDS = ["ELEC7022", "ELEC7001", "ZM079055", "A", "AB12", "GREE001", "Z~ {}|x"]
+REMOTE_IDS = ["ELEC7022", "ELEC7001", "ZM079055", "A", "AB12", "GREE001", "Z~ {}|x", "ELEC7020", "AUX10", "P", "@home", "0", "00000000", "p0P@p0P@"]
+
+
+def rand_remote(rng):
+    if rng.random() < 0.5:
+        return rng.choice(REMOTE_IDS)
+    return "".join(chr(rng.randrange(33, 127)) for _ in range(rng.randrange(1, 9)))
 
 
 def thermo(rng, **kw):
     d = {"t": "thermo", "seed": rng.randrange(1 << 30), "len": rng.choice([109, 109, 92, 96, 130]),
          "state": rng.randrange(2), "mode": rng.randrange(1, 6), "target": rng.choice([0, 16, 23, 24, 30, 255, rng.randrange(256)]),
          "fan": rng.randrange(4), "swing": rng.randrange(2),
-         "temp10": rng.choice([0, 1, 255, 256, 281, 65535, rng.randrange(65536)]), "remote": rng.choice(REMOTE_IDS)}
+         "temp10": rng.choice([0, 1, 255, 256, 281, 65535, rng.randrange(65536)]), "remote": rand_remote(rng)}
     d.update(kw)
     return d
 
@@ -97,7 +103,12 @@ def op1(rng, name: str, a: dict, ok_login=True):
     return {"op": name, "a": a, "replies": [login(rng), cmd_reply]}
 
 
+SMALL_CLOCKS = [16.0, 255.0, 256.0, 4096.25, 4660.5, 21600.0, 65536.0, 1048576.0, 5097600.0, 15724800.0, 16777216.5, 268435456.0]
+
+
 def t0_any(rng):
+    if rng.random() < 0.35:
+        return rng.choice(SMALL_CLOCKS)
     return rng.choice([1.0, 255.5, 65535.75, 1790000000.25, 2147483647.5, 2147483648.0, 4294967294.25, float(rng.randrange(1, 4294967295)) + rng.random()])
 
 
@@ -314,11 +325,12 @@ class C03(ClientProp):
                     else:
                         continue
                     ops.append(o)
-                out.append(one(rng, api, ops, t0=t0_pre2038(rng)))
+                out.append(one(rng, api, ops, t0=t0_pre2038(rng), zone=rng.choice(ZONES_ALL)))
         for _ in range(ctx.pick(60, 1200)):
             api = rng.choice([1, 2])
-            ops = [self._any_op(rng, api) for _ in range(rng.randrange(3, 21))]
-            out.append(one(rng, api, ops, t0=t0_pre2038(rng)))
+            z = rng.choice(ZONES_ALL)
+            ops = [self._any_op(rng, api, zone=z) for _ in range(rng.randrange(3, 21))]
+            out.append(one(rng, api, ops, t0=t0_pre2038(rng), zone=z))
         # two instances, interleaved
         for _ in range(ctx.pick(150, 3000)):
             apis = rng.choice([(1, 2), (1, 1), (2, 2), (2, 1)])
@@ -328,7 +340,7 @@ class C03(ClientProp):
                 inst.append({"api": api, "dev": dev, "key": key})
             ops = [[self._any_op(rng, api) for _ in range(rng.randrange(1, 5))] for api in apis]
             order = [rng.randrange(2) for _ in range(40)]
-            out.append({"zone": "UTC", "t0": t0_pre2038(rng), "inst": inst, "ops": ops, "order": order})
+            out.append({"zone": rng.choice(ZONES_ALL), "t0": t0_pre2038(rng), "inst": inst, "ops": ops, "order": order})
         return out
 
     assumptions = ClientProp.base_assumptions + [
@@ -392,6 +404,9 @@ def fault_variants(rng, valid: dict, n_prefix: int):
             outs.append({"t": "prefix", "of": valid, "n": k})
     for _ in range(6):
         outs.append({"t": "garbage", "seed": rng.randrange(1 << 30), "n": rng.choice([1, 2, 50, 100, 107, 109, 500, 1024])})
+    for n in (1, 2, 12, 44, 107, 1024):
+        outs.append({"t": "raw", "b": [0] * n})          # non-empty replies made of NUL bytes only
+    outs.append({"t": "raw", "b": [255] * 60})
     return outs
 
 
@@ -440,7 +455,8 @@ class C09(ClientProp):
             for name, a in lst:
                 for lg in fault_variants(rng, login(rng, 44), 3):
                     out.append(one(rng, api, [{"op": name, "a": a, "replies": [lg, ack(rng)]}], t0=1790553600.5))
-                for rp in [{"t": "eof"}, {"t": "garbage", "seed": 3, "n": 1}, {"t": "garbage", "seed": 4, "n": 1024}, ack(rng)]:
+                for rp in [{"t": "eof"}, {"t": "garbage", "seed": 3, "n": 1}, {"t": "garbage", "seed": 4, "n": 1024}, ack(rng),
+                           {"t": "raw", "b": [0]}, {"t": "raw", "b": [0] * 54}, {"t": "raw", "b": [0, 0, 0, 0, 0]}, {"t": "raw", "b": [32]}]:
                     out.append(one(rng, api, [{"op": name, "a": a, "replies": [login(rng), rp]}], t0=1790553600.5))
         # thermostat control with a fault at each step
         for _ in range(ctx.pick(40, 600)):
@@ -547,6 +563,14 @@ class C16(ClientProp):
                 if rng.random() < 0.25:
                     faults = {rng.randrange(4)}
                 ops.append(breeze_op(rng, a, faults))
+            # the same fully specified request twice on one remote object, the device reporting a different power state
+            for _ in range(3):
+                req = {"irset": ir, "state": rng.randrange(2), "mode": rng.choice([1, 2, 3, 4, 5]), "temp": rng.choice([16, 20, 24, 30]),
+                       "fan": rng.randrange(4), "swing": rng.randrange(2), "update": False}
+                first = rng.randrange(2)
+                for rep_state in (first, 1 - first, first):
+                    rep = thermo(rng, remote=ir["IRSetID"], state=rep_state, mode=req["mode"])
+                    ops.append(breeze_op(rng, dict(req), None, rep))
             # one call per connection when a fault is injected (end of stream persists), else batches
             batch = []
             for o in ops:
